@@ -162,6 +162,13 @@ fn build(ctx: &Ctx, cons: &Consensus, shift: u64) -> Result<Universe, String> {
         add("since/relative-epoch=3/4", vec![with_since(&r, REL | epoch_since(0, 3, 4))], true, Some(false));
         add("since/relative-epoch=2/4", vec![with_since(&r, REL | epoch_since(0, 2, 4))], true, Some(true));
         add("since/relative-epoch=1", vec![with_since(&r, REL | epoch_since(1, 0, 1))], false, Some(false));
+        // epoch encodings with a zero length: index 0 / length 0 is the legal "whole epoch" form, a
+        // non-zero index over length 0 is malformed
+        add("since/absolute-epoch-whole-epoch-form-0/0", vec![with_since(&t, epoch_since(ep(h - 1).0, 0, 0))], true, Some(true));
+        add("since/absolute-epoch-index-1-over-length-0", vec![with_since(&t, epoch_since(ep(h - 1).0, 1, 0))], false, Some(false));
+        add("since/absolute-epoch-0-index-7-over-length-0", vec![with_since(&t, epoch_since(0, 7, 0))], false, Some(false));
+        add("since/relative-epoch-0/0", vec![with_since(&r, REL | epoch_since(0, 0, 0))], true, Some(true));
+        add("since/relative-epoch-index-1-over-length-0", vec![with_since(&r, REL | epoch_since(0, 1, 0))], false, Some(false));
         // median time: the median of the three blocks below the commit position is block h - 2's timestamp
         let median_s = time_for_height(h - 2) / 1000;
         add("since/absolute-time=median", vec![with_since(&t, TIME | median_s)], true, Some(true));
